@@ -100,6 +100,13 @@ int main(void)
 {
     world_init();
     ABTI_mutex_init(&M); ABTI_cond_init(&CV);
+    /* plain or recursive mutex (held once: nesting level 0).  Only for a ULT focus: the model has ONE thread-local slot for all
+     * external threads, so two external agents would share an owner id (in reality each pthread has its own) */
+#if FOCUS_EXT
+    int rec = 0;
+#else
+    int rec = nondet_bool(); if (rec) M.attrs = ABTI_MUTEX_ATTR_RECURSIVE;
+#endif
 #ifdef A1
     a1 = A1;                        /* one obligation per kind of the waiter ahead (none / blocked ULT / external): keeps each solver run small */
 #else
@@ -159,6 +166,9 @@ int main(void)
     VR_ASSERT(holders == 0, "nobody else holds the mutex when the wait returns");
     holders++;
     VR_ASSERT(M.lock.val.val != 0, "the waiter returns holding the mutex");
+#if !FOCUS_EXT
+    if (rec) { VR_ASSERT(M.owner_id == ABTI_self_get_thread_id(lp_ABTI_local) && M.nesting_cnt == 0, "recursive mutex: the waiter returns as the OWNER of the mutex at nesting level 0 (its own nested lock / unlock work)"); VR_WITNESS("waited with a recursive mutex"); }
+#endif
     VR_ASSERT(!bad_signal, "signal wakes exactly the head (none if none), broadcast wakes all: list updated accordingly");
     VR_ASSERT(!lost_signal, "a signal issued by a caller that acquired the mutex after the waiter released it finds the waiter queued");
     VR_ASSERT(CV.lock.val.val == 0, "cond lock released");
